@@ -95,7 +95,7 @@ fn ipp_body(n: usize, r: usize, l: usize, t0: &Transcript) {
         }
         Err(_) => {}
     }
-    kani::cover!(res.is_ok() && l == 3, "Ok reachable with three rounds");
+    kani::cover!(res.is_ok() && l == 2, "Ok reachable with two rounds");
     kani::cover!(res.is_ok() && l == 0, "Ok reachable with zero rounds");
     kani::cover!(res.is_err() && l == r, "Err reachable with equal lengths (wrong n)");
     kani::cover!(res.is_err() && l < r && n == (1usize << l), "Err reachable with |L| < |R|, n = 2^|L|");
@@ -149,7 +149,38 @@ const SCS: [K271; 3] = [K271(41), K271(42), K271(43)];
 /// Fixed part of an encoded proof on the unit group: 11 points + 5 scalars + two u64 counts.
 pub const FIXED_BYTES: usize = 11 * POINT_BYTES + 5 * SCALAR_BYTES + 16;
 
-/// C08 ipp, quick variant: same harness body with |L|,|R| <= 2 and n <= 5.
+macro_rules! split3 {
+    ($x:expr, $f:ident $(, $a:expr)*) => {
+        match $x {
+            0 => $f(0 $(, $a)*),
+            1 => $f(1 $(, $a)*),
+            _ => $f(2 $(, $a)*),
+        }
+    };
+}
+macro_rules! split6 {
+    ($x:expr, $f:ident $(, $a:expr)*) => {
+        match $x {
+            0 => $f(0 $(, $a)*),
+            1 => $f(1 $(, $a)*),
+            2 => $f(2 $(, $a)*),
+            3 => $f(3 $(, $a)*),
+            4 => $f(4 $(, $a)*),
+            _ => $f(5 $(, $a)*),
+        }
+    };
+}
+fn ippq_split_n(r: usize, l: usize, n: usize, t0: &Transcript) {
+    split6!(n, ipp_body, r, l, t0)
+}
+fn ippq_split_r(l: usize, r: usize, n: usize, t0: &Transcript) {
+    split3!(r, ippq_split_n, l, n, t0)
+}
+
+/// C08 `c08_ipp_scalars_any_lengths_quick`: the same body as `c08_ipp_scalars_any_lengths`
+/// with the smaller bound |L|,|R| in 0..=2, n in 0..=5 (54 arms instead of 160); unwind 34;
+/// same stubs.  (Two of the five cover properties mention |L| = 3 and are expected
+/// unsatisfiable here, hence the separate witnesses below.)
 #[kani::proof]
 #[kani::unwind(34)]
 #[kani::stub(keccak::f1600, f1600_stub)]
@@ -163,7 +194,7 @@ fn c08_ipp_scalars_any_lengths_quick() {
     let n: usize = kani::any();
     kani::assume(l <= 2 && r <= 2 && n <= 5);
     let t0 = Transcript::new(b"ipp");
-    split4!(l, ipp_split_r, r, n, &t0);
+    split3!(l, ippq_split_r, r, n, &t0);
     core::mem::forget(t0);
 }
 
@@ -208,8 +239,8 @@ fn c08_decode_any_bytes() {
     core::mem::forget(res);
 }
 
-/// Body of `c11_size_law_roundtrip_prefix` for a literal round count `k`.
-fn c11_body(k: usize, cut: usize) {
+/// Body of `c11_size_law_roundtrip` for a literal round count `k`.
+fn c11_roundtrip_body(k: usize) {
     let ipp = InnerProductProof::<UnitA>::verif_from_parts(LA[..k].to_vec(), RA[..k].to_vec(), K271(7), K271(9));
     let proof = R1CSProof::<UnitA>::verif_from_parts(PTS, SCS, ipp);
     let bytes = proof.to_bytes().unwrap();
@@ -221,7 +252,34 @@ fn c11_body(k: usize, cut: usize) {
     let back = back.unwrap();
     let again = back.to_bytes().unwrap();
     assert!(again == bytes);
-    // every strict prefix is rejected with FormatError
+    kani::cover!(k == 3, "three rounds");
+    kani::cover!(k == 0, "zero rounds");
+    core::mem::forget(again);
+    core::mem::forget(back);
+    core::mem::forget(bytes);
+    core::mem::forget(proof);
+}
+
+/// C11 `c11_size_law_roundtrip`
+///
+/// Property: C11 (size law, encode/decode/encode identity).
+/// Symbolic: number of inner-product rounds k in 0..=3 (|L| = |R| = k).  Concrete: element values.
+/// Claim: `to_bytes().len() == 11*P + 5*S + 16 + 2k*P` with P = S = 2 (unit group);
+/// `from_bytes(to_bytes(p))` is Ok and re-encodes to identical bytes.
+/// Bound: k <= 3 (60 bytes); unwind 62 (byte-wise `memcmp` over 60 bytes).  No transcript, no stubs.
+#[kani::proof]
+#[kani::unwind(62)]
+fn c11_size_law_roundtrip() {
+    let k: usize = kani::any();
+    kani::assume(k <= 3);
+    split4!(k, c11_roundtrip_body);
+}
+
+/// Body of `c11_prefix_rejected` for a literal round count `k`.
+fn c11_prefix_body(k: usize, cut: usize) {
+    let ipp = InnerProductProof::<UnitA>::verif_from_parts(LA[..k].to_vec(), RA[..k].to_vec(), K271(7), K271(9));
+    let proof = R1CSProof::<UnitA>::verif_from_parts(PTS, SCS, ipp);
+    let bytes = proof.to_bytes().unwrap();
     kani::assume(cut < bytes.len());
     let pre = R1CSProof::<UnitA>::from_bytes(&bytes[..cut]);
     assert!(matches!(pre, Err(R1CSError::FormatError)));
@@ -229,35 +287,520 @@ fn c11_body(k: usize, cut: usize) {
     kani::cover!(k == 0 && cut == 0, "zero rounds, empty prefix");
     kani::cover!(k == 2 && cut == FIXED_BYTES - 4 + 2, "cut inside the L list");
     core::mem::forget(pre);
-    core::mem::forget(again);
-    core::mem::forget(back);
     core::mem::forget(bytes);
     core::mem::forget(proof);
 }
 
-/// C11 `c11_size_law_roundtrip_prefix`
+/// C11 `c11_prefix_rejected`
 ///
-/// Property: C11 (size law, encode/decode/encode identity, every strict prefix rejected).
-/// Symbolic: number of inner-product rounds k in 0..=3 (|L| = |R| = k), cut point in 0..len.
-/// Concrete: the element values.
-/// Claim: `to_bytes().len() == 11*P + 5*S + 16 + 2k*P` with P = S = 2 (unit group);
-/// `from_bytes(to_bytes(p))` is Ok and re-encodes to identical bytes; for every cut < len,
-/// `from_bytes(&bytes[..cut])` is `Err(FormatError)`.
-/// Bound: k <= 3 (60 bytes); unwind 62 (byte-wise slice equality over 60 bytes).
-/// No transcript, no stubs.
+/// Property: C11 (every strict prefix of a valid encoding is rejected with FormatError).
+/// Symbolic: k in 0..=3 rounds, cut point in 0..len.  Concrete: element values.
+/// Claim: for every cut < len, `from_bytes(&bytes[..cut])` is `Err(FormatError)`, no panic.
+/// Bound: k <= 3; unwind 8 (list loops run k <= 3 times; with a symbolic slice length the
+/// list-length word is read at a symbolic offset, so CBMC unrolls these loops to the bound and
+/// the unwinding assertions discharge the rest).  No transcript, no stubs.
 #[kani::proof]
-#[kani::unwind(62)]
-fn c11_size_law_roundtrip_prefix() {
+#[kani::unwind(8)]
+fn c11_prefix_rejected() {
     let k: usize = kani::any();
     let cut: usize = kani::any();
     kani::assume(k <= 3 && cut <= 64);
-    split4!(k, c11_body, cut);
+    split4!(k, c11_prefix_body, cut);
 }
 
+use ark_bulletproofs::r1cs::{ConstraintSystem, Prover, Verifier};
 use merlin::TranscriptRng;
 use merlin::TranscriptRngBuilder;
 use rand_core::RngCore;
 
+/// One twin step: apply `op` to prover and verifier, compare handles and counters, and check
+/// the pairing rule for single allocations against `pending` (the harness's own model of the
+/// open gate).  Returns the updated model.
+fn twin_step<P: ConstraintSystem<K271>, V: ConstraintSystem<K271>>(
+    p: &mut P,
+    v: &mut V,
+    op: u8,
+    i: usize,
+    pending: Option<usize>,
+) -> Option<usize> {
+    let before = p.multipliers_len();
+    assert!(before == v.multipliers_len());
+    let val = K271((3 + 2 * i) as u16);
+    let mut pending = pending;
+    match op {
+        1 => {
+            // single allocation
+            let rp = p.allocate(Some(val));
+            let rv = v.allocate(None);
+            assert!(rp.is_ok() && rv.is_ok());
+            let (rp, rv) = (rp.unwrap(), rv.unwrap());
+            assert!(rp == rv);
+            match pending {
+                None => {
+                    assert!(rp == Var::MultiplierLeft(before));
+                    assert!(p.multipliers_len() == before + 1);
+                    pending = Some(before);
+                }
+                Some(j) => {
+                    assert!(rp == Var::MultiplierRight(j));
+                    assert!(p.multipliers_len() == before);
+                    pending = None;
+                }
+            }
+        }
+        2 => {
+            let rp = p.allocate_multiplier(Some((val, K271(5))));
+            let rv = v.allocate_multiplier(None);
+            assert!(rp.is_ok() && rv.is_ok());
+            let (rp, rv) = (rp.unwrap(), rv.unwrap());
+            assert!(rp == rv);
+            assert!(rp == (Var::MultiplierLeft(before), Var::MultiplierRight(before), Var::MultiplierOutput(before)));
+            assert!(p.multipliers_len() == before + 1);
+        }
+        3 => {
+            let rp = p.multiply(Lc::from(val), Lc::from(Var::One()) + Lc::from(K271(2)));
+            let rv = v.multiply(Lc::from(val), Lc::from(Var::One()) + Lc::from(K271(2)));
+            assert!(rp == rv);
+            assert!(rp == (Var::MultiplierLeft(before), Var::MultiplierRight(before), Var::MultiplierOutput(before)));
+            assert!(p.multipliers_len() == before + 1);
+        }
+        4 => {
+            p.constrain(Lc::from(Var::One()) - Lc::from(K271(1)));
+            v.constrain(Lc::from(Var::One()) - Lc::from(K271(1)));
+            assert!(p.multipliers_len() == before);
+        }
+        5 => {
+            // prover without an assignment: error, nothing changes
+            let rp = p.allocate(None);
+            assert!(matches!(rp, Err(R1CSError::MissingAssignment)));
+            assert!(p.multipliers_len() == before);
+        }
+        _ => {
+            let rp = p.allocate_multiplier(None);
+            assert!(matches!(rp, Err(R1CSError::MissingAssignment)));
+            assert!(p.multipliers_len() == before);
+        }
+    }
+    assert!(p.multipliers_len() == v.multipliers_len());
+    pending
+}
+
+/// Number of twin steps in `c16_twin_bookkeeping`.
+pub const C16_STEPS: usize = 5;
+
+/// C16 `c16_twin_bookkeeping` (first phase)
+///
+/// Property: C16 (prover and verifier assign identical variables for identical call sequences).
+/// Symbolic: the number of calls (0..=5) and each call, chosen from {commit, allocate,
+/// allocate_multiplier, multiply, constrain, prover-allocate(None), prover-allocate_multiplier(None)}.
+/// Concrete: assigned values, linear-combination shapes.
+/// Claim, after every call: returned `Variable` handles are equal on both roles and equal to
+/// the expected handle (`allocate_multiplier`/`multiply`: (Left(n), Right(n), Output(n)) with
+/// n = gate count before the call; `allocate`: Left(n) if no gate is open, else Right(j) of
+/// the open gate j; `commit`: Committed(number of commitments so far)); `multipliers_len()`
+/// is equal on both roles; the prover's `allocate(None)` / `allocate_multiplier(None)` return
+/// `Err(MissingAssignment)` and leave the gate count AND the pairing state unchanged (the next
+/// `allocate` still pairs as the model predicts).  No panic.
+/// Bound: <= 5 calls; unwind 16 (toy-transcript folds over labels <= 13 bytes).
+/// Stubs (level 2, toy transcript): Transcript::{new, append_message, challenge_bytes},
+/// zeroize::optimization_barrier.
+#[kani::proof]
+#[kani::unwind(16)]
+#[kani::stub(zeroize::optimization_barrier, barrier_stub)]
+#[kani::stub(merlin::Transcript::new, toy_transcript_new)]
+#[kani::stub(merlin::Transcript::append_message, toy_append_message)]
+#[kani::stub(merlin::Transcript::challenge_bytes, toy_challenge_bytes)]
+fn c16_twin_bookkeeping() {
+    let pc = pc_gens();
+    let mut tp = Transcript::new(b"c16");
+    let mut tv = Transcript::new(b"c16");
+    let mut prover = Prover::<UnitA, _>::new(&pc, &mut tp);
+    let mut verifier = Verifier::<UnitA, _>::new(&mut tv);
+    let steps: usize = kani::any();
+    kani::assume(steps <= C16_STEPS);
+    let mut pending: Option<usize> = None;
+    let mut commits = 0usize;
+    let mut allocs_in_a_row = 0usize;
+    let mut i = 0;
+    while i < C16_STEPS {
+        if i < steps {
+            let op: u8 = kani::any();
+            kani::assume(op <= 6);
+            if op == 0 {
+                let (com, vp) = prover.commit(K271((2 + i) as u16), K271(9));
+                let vv = verifier.commit(com);
+                assert!(vp == vv);
+                assert!(vp == Var::Committed(commits));
+                commits += 1;
+                assert!(prover.multipliers_len() == verifier.multipliers_len());
+            } else {
+                pending = twin_step(&mut prover, &mut verifier, op, i, pending);
+            }
+            allocs_in_a_row = if op == 1 { allocs_in_a_row + 1 } else { 0 };
+        }
+        i += 1;
+    }
+    kani::cover!(steps == C16_STEPS && prover.multipliers_len() == 5, "five gates after five calls");
+    kani::cover!(steps == C16_STEPS && allocs_in_a_row == 5 && prover.multipliers_len() == 3, "five single allocations make three gates");
+    kani::cover!(steps == C16_STEPS && commits == 2 && pending.is_some(), "commits and an open gate");
+    core::mem::forget(prover);
+    core::mem::forget(verifier);
+    core::mem::forget(tp);
+    core::mem::forget(tv);
+}
+
+use digest::core_api::FixedOutputCore;
+use sha3::Sha3_512Core;
+
+macro_rules! split5 {
+    ($x:expr, $f:ident $(, $a:expr)*) => {
+        match $x {
+            0 => $f(0 $(, $a)*),
+            1 => $f(1 $(, $a)*),
+            2 => $f(2 $(, $a)*),
+            3 => $f(3 $(, $a)*),
+            _ => $f(4 $(, $a)*),
+        }
+    };
+}
+
+/// Body of `c12_generators_history_independent` for literal capacities and party count.
+fn c12_body(c3: usize, c2: usize, c1: usize, parties: usize) {
+    let mut bp = BulletproofGens::<UnitA>::new(c1, parties);
+    bp.increase_capacity(c2);
+    bp.increase_capacity(c3);
+    let m12 = if c1 > c2 { c1 } else { c2 };
+    let max = if m12 > c3 { m12 } else { c3 };
+    // the recorded capacity never decreases and is the maximum requested so far
+    assert!(bp.gens_capacity == max);
+    assert!(bp.party_capacity == parties);
+    let fresh = BulletproofGens::<UnitA>::new(max, parties);
+    assert!(fresh.gens_capacity == max);
+    let mut j = 0;
+    while j < parties {
+        let (g1, g2) = (bp.share(j).verif_G(max + 1), fresh.share(j).verif_G(max + 1));
+        let (h1, h2) = (bp.share(j).verif_H(max + 1), fresh.share(j).verif_H(max + 1));
+        // exactly `max` generators per chain, element-wise equal to the fresh construction
+        assert!(g1.len() == max && g2.len() == max && h1.len() == max && h2.len() == max);
+        let mut i = 0;
+        while i < max {
+            assert!(g1[i] == g2[i]);
+            assert!(h1[i] == h2[i]);
+            i += 1;
+        }
+        core::mem::forget((g1, g2, h1, h2));
+        j += 1;
+    }
+    kani::cover!(c1 == 3 && c2 == 1 && c3 == 4 && parties == 2, "non-monotone history 3,1,4 with two parties");
+    kani::cover!(c1 == 0 && c2 == 0 && c3 == 0, "all-zero history");
+    core::mem::forget(bp);
+    core::mem::forget(fresh);
+}
+fn c12_split_c2(c3: usize, c2: usize, c1: usize, parties: usize) {
+    split5!(c2, c12_body_swap, c3, c1, parties)
+}
+fn c12_body_swap(c2: usize, c3: usize, c1: usize, parties: usize) {
+    c12_body(c3, c2, c1, parties)
+}
+fn c12_split_c1(c1: usize, c2: usize, c3: usize, parties: usize) {
+    // literal c1, then c3, then c2
+    split5!(c3, c12_split_c2, c2, c1, parties)
+}
+fn c12_split_p(parties: usize, c1: usize, c2: usize, c3: usize) {
+    split5!(c1, c12_split_c1, c2, c3, parties)
+}
+
+/// C12 `c12_generators_history_independent`
+///
+/// Property: C12 (the i-th generator of party j does not depend on the capacity history).
+/// Symbolic: three requested capacities c1, c2, c3, EACH in 0..=4 in ANY order (non-monotone
+/// histories such as 3,1,4 included), party count in 1..=2.
+/// Claim: after `new(c1,p); increase_capacity(c2); increase_capacity(c3)`:
+/// `gens_capacity == max(c1,c2,c3)`, every party's G and H chains have exactly that many
+/// elements and are element-wise equal to those of `new(max,p)`.  No panic.
+/// Bound: capacities <= 4, parties <= 2 (250 arms); unwind 66 (64-byte squeeze of the SHA-3 stub).
+/// Stubs: level-2 SHA-3 (`Sha3_512Core::finalize_fixed_core`), keccak::p1600,
+/// ChaCha20Core::{from_seed, generate}, zeroize::optimization_barrier.
+/// Not covered here: serialisation round trip, distinctness of chains (native test only).
+#[kani::proof]
+#[kani::unwind(66)]
+#[kani::stub(keccak::f1600, f1600_stub)]
+#[kani::stub(keccak::p1600, p1600_stub)]
+#[kani::stub(zeroize::optimization_barrier, barrier_stub)]
+#[kani::stub(<ChaCha20Core as SeedableRng>::from_seed, chacha_from_seed_stub)]
+#[kani::stub(<ChaCha20Core as BlockRngCore>::generate, chacha_generate_stub)]
+#[kani::stub(<Sha3_512Core as FixedOutputCore>::finalize_fixed_core, sha3_512_finalize_stub)]
+fn c12_generators_history_independent() {
+    let c1: usize = kani::any();
+    let c2: usize = kani::any();
+    let c3: usize = kani::any();
+    let parties: usize = kani::any();
+    kani::assume(c1 <= 4 && c2 <= 4 && c3 <= 4 && parties >= 1 && parties <= 2);
+    match parties {
+        1 => c12_split_p(1, c1, c2, c3),
+        _ => c12_split_p(2, c1, c2, c3),
+    }
+}
+
+/// One arm of the above (history 3,1,4, two parties): used to size the full harness.
+#[kani::proof]
+#[kani::unwind(66)]
+#[kani::stub(keccak::f1600, f1600_stub)]
+#[kani::stub(keccak::p1600, p1600_stub)]
+#[kani::stub(zeroize::optimization_barrier, barrier_stub)]
+#[kani::stub(<ChaCha20Core as SeedableRng>::from_seed, chacha_from_seed_stub)]
+#[kani::stub(<ChaCha20Core as BlockRngCore>::generate, chacha_generate_stub)]
+#[kani::stub(<Sha3_512Core as FixedOutputCore>::finalize_fixed_core, sha3_512_finalize_stub)]
+fn c12_one_history_3_1_4() {
+    c12_body(4, 1, 3, 2);
+}
+
+/// C12 `c12_aggregated_iter_party_major`
+///
+/// Property: C12 (the aggregated iterators list exactly the first n generators of the first m
+/// parties in party-major order).
+/// Symbolic: n in 0..=4, m in 0..=2 (views); concrete: `BulletproofGens::new(4, 2)`.
+/// Claim: `G(n,m)` / `H(n,m)` yield exactly n*m items, item k being generator k % n of party
+/// k / n as returned by `share(j).verif_G(4)` / `verif_H(4)`, then `None`.  No panic.
+/// Bound: capacity 4, parties 2; unwind 66.  Stubs: as `c12_generators_history_independent`.
+#[kani::proof]
+#[kani::unwind(66)]
+#[kani::stub(keccak::f1600, f1600_stub)]
+#[kani::stub(keccak::p1600, p1600_stub)]
+#[kani::stub(zeroize::optimization_barrier, barrier_stub)]
+#[kani::stub(<ChaCha20Core as SeedableRng>::from_seed, chacha_from_seed_stub)]
+#[kani::stub(<ChaCha20Core as BlockRngCore>::generate, chacha_generate_stub)]
+#[kani::stub(<Sha3_512Core as FixedOutputCore>::finalize_fixed_core, sha3_512_finalize_stub)]
+fn c12_aggregated_iter_party_major() {
+    let bp = BulletproofGens::<UnitA>::new(4, 2);
+    let g = [bp.share(0).verif_G(4), bp.share(1).verif_G(4)];
+    let h = [bp.share(0).verif_H(4), bp.share(1).verif_H(4)];
+    let n: usize = kani::any();
+    let m: usize = kani::any();
+    kani::assume(n <= 4 && m <= 2);
+    let mut ig = bp.G(n, m);
+    let mut ih = bp.H(n, m);
+    let mut count = 0usize;
+    let mut j = 0;
+    while j < 2 {
+        let mut i = 0;
+        while i < 4 {
+            if j < m && i < n {
+                let (eg, eh) = (ig.next(), ih.next());
+                assert!(eg == Some(&g[j][i]));
+                assert!(eh == Some(&h[j][i]));
+                count += 1;
+            }
+            i += 1;
+        }
+        j += 1;
+    }
+    assert!(count == n * m);
+    assert!(ig.next().is_none());
+    assert!(ih.next().is_none());
+    kani::cover!(n == 4 && m == 2, "full view");
+    kani::cover!(n == 0 && m == 2, "zero generators per party");
+    kani::cover!(n == 3 && m == 1, "partial view");
+    core::mem::forget((g, h));
+    core::mem::forget(bp);
+}
+
+use ark_bulletproofs::r1cs::{batch_verify, RandomizableConstraintSystem};
+use ark_ec::AffineRepr;
+
+/// max(1, next_power_of_two(n)): the padded circuit size (zero gates count as one).
+fn threshold(n: usize) -> usize {
+    let p = n.next_power_of_two();
+    if p < 1 {
+        1
+    } else {
+        p
+    }
+}
+
+/// A structurally valid proof object whose T_1 is the identity: the verifier rejects it with
+/// `VerificationError` right *after* its generator-capacity check, which makes the threshold
+/// observable through return values without running the (minutes-per-path) rest of `verify`.
+fn proof_identity_t1() -> R1CSProof<UnitA> {
+    let mut pts = PTS;
+    pts[6] = UnitA::zero();
+    let ipp = InnerProductProof::<UnitA>::verif_from_parts(Vec::new(), Vec::new(), K271(7), K271(9));
+    R1CSProof::<UnitA>::verif_from_parts(pts, SCS, ipp)
+}
+
+/// Build the verifier side of the C17 circuit: `n1` first-phase gates, `n2` gates allocated by
+/// a randomized-phase closure.
+fn c17_verifier<'t>(t: &'t mut Transcript, n1: usize, n2: usize) -> Verifier<UnitA, &'t mut Transcript> {
+    let mut v = Verifier::<UnitA, _>::new(t);
+    let mut i = 0;
+    while i < n1 {
+        let (_l, _r, o) = v.allocate_multiplier(None).unwrap();
+        v.constrain(Lc::from(o) - Lc::from(K271(6)));
+        i += 1;
+    }
+    if n2 > 0 {
+        v.specify_randomized_constraints(move |cs| {
+            let mut k = 0;
+            while k < n2 {
+                let _ = cs.allocate_multiplier(None)?;
+                k += 1;
+            }
+            Ok(())
+        })
+        .unwrap();
+    }
+    v
+}
+
+fn c17v_body(n2: usize, n1: usize, cap: usize, bp: &BulletproofGens<UnitA>) {
+    let pc = pc_gens();
+    let proof = proof_identity_t1();
+    let thr = threshold(n1 + n2);
+    // verify
+    let mut t = Transcript::new(b"c17");
+    let v = c17_verifier(&mut t, n1, n2);
+    let res = v.verify(&proof, &pc, bp);
+    if cap < thr {
+        assert!(res == Err(R1CSError::InvalidGeneratorsLength));
+    } else {
+        assert!(res == Err(R1CSError::VerificationError));
+    }
+    // batch_verify, one instance
+    let mut t2 = Transcript::new(b"c17");
+    let v2 = c17_verifier(&mut t2, n1, n2);
+    let mut rng = CounterRng(3);
+    let res2 = batch_verify(&mut rng, vec![(v2, &proof)], &pc, bp);
+    if cap < thr {
+        assert!(res2 == Err(R1CSError::InvalidGeneratorsLength));
+    } else {
+        assert!(res2 == Err(R1CSError::VerificationError));
+    }
+    kani::cover!(n1 == 0 && n2 == 0 && cap == 0, "zero gates, zero capacity -> error");
+    kani::cover!(n1 == 0 && n2 == 0 && cap == 1, "zero gates, capacity one -> passes the check");
+    kani::cover!(n1 == 2 && n2 == 1 && cap == 3, "three gates over two phases, capacity three -> error");
+    kani::cover!(n1 == 3 && n2 == 1 && cap == 4, "four gates, capacity four -> passes the check");
+    core::mem::forget(t);
+    core::mem::forget(t2);
+    core::mem::forget(proof);
+}
+fn c17v_split_n1(n1: usize, n2: usize, cap: usize, bp: &BulletproofGens<UnitA>) {
+    split3!(n2, c17v_body, n1, cap, bp)
+}
+fn c17v_cap(cap: usize, n1: usize, n2: usize) {
+    let bp = BulletproofGens::<UnitA>::new(cap, 1);
+    assert!(bp.gens_capacity == cap);
+    split4!(n1, c17v_split_n1, n2, cap, &bp);
+    core::mem::forget(bp);
+}
+
+/// C17 `c17_verify_capacity_threshold`
+///
+/// Property: C17, verifier side (`verify` and `batch_verify` with one instance).
+/// Symbolic: first-phase gates n1 in 0..=3, second-phase gates n2 in 0..=2 (allocated by a
+/// randomized-phase closure), generator capacity in 0..=5 (real `BulletproofGens::new(cap, 1)`;
+/// the `gens_capacity` field is never written by the harness).
+/// Concrete: a well-formed proof object whose T_1 is the identity (see `proof_identity_t1`).
+/// Claim: both entry points return `Err(InvalidGeneratorsLength)` iff
+/// cap < max(1, next_power_of_two(n1+n2)) (zero gates count as one; capacity 0 included) and
+/// `Err(VerificationError)` otherwise; no panic.  NOT claimed here: behaviour of the part of
+/// `verify` after the T_1 check with sufficient capacity (see `c08_verify_*`, and the native
+/// honest round trip).
+/// Bound: 72 arms; unwind 66.  Stubs: level 2 (toy transcript, SHA-3 finalisation), ChaCha,
+/// keccak, zeroize barrier.
+#[kani::proof]
+#[kani::unwind(66)]
+#[kani::stub(keccak::f1600, f1600_stub)]
+#[kani::stub(keccak::p1600, p1600_stub)]
+#[kani::stub(zeroize::optimization_barrier, barrier_stub)]
+#[kani::stub(<ChaCha20Core as SeedableRng>::from_seed, chacha_from_seed_stub)]
+#[kani::stub(<ChaCha20Core as BlockRngCore>::generate, chacha_generate_stub)]
+#[kani::stub(<Sha3_512Core as FixedOutputCore>::finalize_fixed_core, sha3_512_finalize_stub)]
+#[kani::stub(merlin::Transcript::new, toy_transcript_new)]
+#[kani::stub(merlin::Transcript::append_message, toy_append_message)]
+#[kani::stub(merlin::Transcript::challenge_bytes, toy_challenge_bytes)]
+fn c17_verify_capacity_threshold() {
+    let n1: usize = kani::any();
+    let n2: usize = kani::any();
+    let cap: usize = kani::any();
+    kani::assume(n1 <= 3 && n2 <= 2 && cap <= 5);
+    split6!(cap, c17v_cap, n1, n2);
+}
+
+/// Ghost flag read by `toy_append_message_pruning`: does the harness expect the capacity checks
+/// to pass on the current arm?
+static mut C17_EXPECT_SUFFICIENT: bool = false;
+
+/// `merlin::Transcript::append_message` for `c17_prove_capacity_threshold`: the toy transcript,
+/// except that the append labelled "A_I2" (the first transcript operation after the prover's
+/// second capacity check) asserts that the capacity was expected to be sufficient and then ends
+/// the path (`kani::assume(false)`): the remaining ~10 minutes per path of `prove` are cut off.
+fn toy_append_message_pruning(t: &mut Transcript, label: &'static [u8], message: &[u8]) {
+    if label.len() == 4 && label[0] == b'A' && label[1] == b'_' && label[2] == b'I' && label[3] == b'2' {
+        assert!(unsafe { C17_EXPECT_SUFFICIENT }, "prover passed both capacity checks with insufficient capacity");
+        kani::cover!(true, "prover passes both capacity checks on some arm");
+        kani::assume(false);
+    }
+    toy_append_message(t, label, message)
+}
+
+fn c17p_body(n2: usize, n1: usize, cap: usize, bp: &BulletproofGens<UnitA>) {
+    let pc = pc_gens();
+    let thr = threshold(n1 + n2);
+    unsafe { C17_EXPECT_SUFFICIENT = cap >= thr };
+    let mut t = Transcript::new(b"c17");
+    let mut p = Prover::<UnitA, _>::new(&pc, &mut t);
+    let mut i = 0;
+    while i < n1 {
+        let (_l, _r, o) = p.allocate_multiplier(Some((K271(2), K271(3)))).unwrap();
+        p.constrain(Lc::from(o) - Lc::from(K271(6)));
+        i += 1;
+    }
+    if n2 > 0 {
+        p.specify_randomized_constraints(move |cs| {
+            let mut k = 0;
+            while k < n2 {
+                let _ = cs.allocate_multiplier(Some((K271(4), K271(5))))?;
+                k += 1;
+            }
+            Ok(())
+        })
+        .unwrap();
+    }
+    let mut rng = CounterRng(1);
+    let res = p.prove(&mut rng, bp);
+    // Only arms that fail a capacity check get here; the others end inside the pruning stub.
+    assert!(matches!(res, Err(R1CSError::InvalidGeneratorsLength)));
+    assert!(cap < thr);
+    kani::cover!(n1 == 0 && n2 == 0 && cap == 0, "zero gates, zero capacity -> error");
+    kani::cover!(n1 == 3 && n2 == 0 && cap == 3, "three gates, capacity three -> error (not a panic in the inner-product argument)");
+    kani::cover!(n1 == 1 && n2 == 2 && cap == 3, "second-phase growth past the capacity -> error");
+    kani::cover!(n1 == 2 && n2 == 0 && cap == 1, "first check (cap < n1) -> error");
+    core::mem::forget(res);
+    core::mem::forget(t);
+}
+fn c17p_split_n1(n1: usize, n2: usize, cap: usize, bp: &BulletproofGens<UnitA>) {
+    split3!(n2, c17p_body, n1, cap, bp)
+}
+fn c17p_cap(cap: usize, n1: usize, n2: usize) {
+    let bp = BulletproofGens::<UnitA>::new(cap, 1);
+    split4!(n1, c17p_split_n1, n2, cap, &bp);
+    core::mem::forget(bp);
+}
+
+/// C17 `c17_prove_capacity_threshold`
+///
+/// Property: C17, prover side.
+/// Symbolic: n1 in 0..=3, n2 in 0..=2 (randomized-phase closure), capacity in 0..=5 (real
+/// `BulletproofGens::new(cap, 1)`).
+/// Claim: `prove` returns `Err(InvalidGeneratorsLength)` on every arm with
+/// cap < max(1, next_power_of_two(n1+n2)) -- in particular n = 3 with cap = 3, and growth past
+/// the capacity in the second phase -- and on no other arm; no panic up to and including the
+/// second capacity check.  Mechanism: arms with sufficient capacity are ended at the first
+/// transcript operation after the second check by `toy_append_message_pruning`, which asserts
+/// that the arm was expected to pass; arms that return must return the error.  NOT claimed:
+/// anything `prove` does after the second capacity check (native round trip only).
+/// Bound: 72 arms; unwind 202 (the prover's transcript RNG is dropped on the error paths:
+/// 200-byte zeroize loop).  Stubs: level 2 with `append_message -> toy_append_message_pruning`.
 #[kani::proof]
 #[kani::unwind(202)]
 #[kani::stub(keccak::f1600, f1600_stub)]
@@ -265,18 +808,41 @@ use rand_core::RngCore;
 #[kani::stub(zeroize::optimization_barrier, barrier_stub)]
 #[kani::stub(<ChaCha20Core as SeedableRng>::from_seed, chacha_from_seed_stub)]
 #[kani::stub(<ChaCha20Core as BlockRngCore>::generate, chacha_generate_stub)]
+#[kani::stub(<Sha3_512Core as FixedOutputCore>::finalize_fixed_core, sha3_512_finalize_stub)]
 #[kani::stub(merlin::Transcript::new, toy_transcript_new)]
-#[kani::stub(merlin::Transcript::append_message, toy_append_message)]
+#[kani::stub(merlin::Transcript::append_message, toy_append_message_pruning)]
 #[kani::stub(merlin::Transcript::challenge_bytes, toy_challenge_bytes)]
 #[kani::stub(TranscriptRngBuilder::rekey_with_witness_bytes, toy_rekey)]
 #[kani::stub(TranscriptRngBuilder::finalize, toy_finalize)]
 #[kani::stub(<TranscriptRng as RngCore>::fill_bytes, toy_rng_fill_bytes)]
-fn dbg2_verify_concrete() {
+fn c17_prove_capacity_threshold() {
+    let n1: usize = kani::any();
+    let n2: usize = kani::any();
+    let cap: usize = kani::any();
+    kani::assume(n1 <= 3 && n2 <= 2 && cap <= 5);
+    split6!(cap, c17p_cap, n1, n2);
+}
+
+/// C08 `c08_verify_one_shape` (sizing harness, concrete shape): 2-gate circuit, |L| = |R| = 1,
+/// arbitrary (dishonest) proof parts; `verify` returns Err, no panic.  Level-2 stubs, unwind 202.
+#[kani::proof]
+#[kani::unwind(202)]
+#[kani::stub(keccak::f1600, f1600_stub)]
+#[kani::stub(keccak::p1600, p1600_stub)]
+#[kani::stub(zeroize::optimization_barrier, barrier_stub)]
+#[kani::stub(<ChaCha20Core as SeedableRng>::from_seed, chacha_from_seed_stub)]
+#[kani::stub(<ChaCha20Core as BlockRngCore>::generate, chacha_generate_stub)]
+#[kani::stub(<Sha3_512Core as FixedOutputCore>::finalize_fixed_core, sha3_512_finalize_stub)]
+#[kani::stub(merlin::Transcript::new, toy_transcript_new)]
+#[kani::stub(merlin::Transcript::append_message, toy_append_message)]
+#[kani::stub(merlin::Transcript::challenge_bytes, toy_challenge_bytes)]
+fn c08_verify_one_shape() {
     let bp = BulletproofGens::<UnitA>::new(2, 1);
     let ipp = InnerProductProof::<UnitA>::verif_from_parts(LA[..1].to_vec(), RA[..1].to_vec(), K271(7), K271(9));
     let proof = R1CSProof::<UnitA>::verif_from_parts(PTS, SCS, ipp);
     let res = verify_proof(2, &proof, UnitA(K271(50)), &bp);
-    kani::cover!(res.is_err());
+    assert!(res.is_ok() || res == Err(R1CSError::VerificationError));
+    kani::cover!(res.is_err(), "dishonest proof rejected");
     core::mem::forget(bp);
     core::mem::forget(proof);
 }
